@@ -317,6 +317,8 @@ static void run_roundtrip(int which /*1 builtin,2 isal,3 both*/)
         add_cfgs(cfgs, &nc, 1200, EC_BACKEND_LIBERASURECODE_RS_VAND, MO.thorough);
         nc += cfgs_xor(cfgs + nc, 1200 - nc);
         nc += cfgs_shss(cfgs + nc, 1200 - nc);      /* backend with per-fragment metadata and forced decode (stand-in library) */
+        nc += cfgs_jer(cfgs + nc, 1200 - nc);
+        nc += cfgs_phazr(cfgs + nc, 1200 - nc);
     }
     if (which & 2) {
         add_cfgs(cfgs, &nc, 1200, EC_BACKEND_ISA_L_RS_VAND, MO.thorough && which == 2);
@@ -375,6 +377,8 @@ static void run_nosilent(int which)
         add_cfgs(cfgs, &nc, 1200, EC_BACKEND_LIBERASURECODE_RS_VAND, MO.thorough);
         nc += cfgs_xor(cfgs + nc, 1200 - nc);
         nc += cfgs_shss(cfgs + nc, 1200 - nc);
+        nc += cfgs_jer(cfgs + nc, 1200 - nc);
+        nc += cfgs_phazr(cfgs + nc, 1200 - nc);
     }
     if (which & 2) {
         add_cfgs(cfgs, &nc, 1200, EC_BACKEND_ISA_L_RS_VAND, MO.thorough);
@@ -461,6 +465,8 @@ static void run_reconstruct(int which)
         add_cfgs(cfgs, &nc, 1200, EC_BACKEND_LIBERASURECODE_RS_VAND, MO.thorough);
         nc += cfgs_xor(cfgs + nc, 1200 - nc);
         nc += cfgs_shss(cfgs + nc, 1200 - nc);
+        nc += cfgs_jer(cfgs + nc, 1200 - nc);
+        nc += cfgs_phazr(cfgs + nc, 1200 - nc);
     }
     if (which & 2) {
         add_cfgs(cfgs, &nc, 1200, EC_BACKEND_ISA_L_RS_VAND, MO.thorough && which == 2);
@@ -643,6 +649,32 @@ static void run_xor(void)
             uint32_t full = (1u << n) - 1;
             rng_t r; rng_seed(&r, MO.seed, 99);
             int ne = gen_esets(n, g->k, g->hd - 1, 4000, &r, es, &ex);
+            /* the decoder of libXorcode itself (the entry point the backend wraps), asked to rebuild the lost parity too
+             * (decode_parity = 1, what the backend passes) and not to (0): the data comes back exactly either way */
+            if (init) {
+                xor_code_t *xc = NULL; stripe_t *s = &x.st[t % x.nstr]; uint64_t P = s->flen - 80;
+                char *bd[32], *bp[32];
+                for (int i = 0; i < n; i++) { void *b = NULL; if (posix_memalign(&b, 16, P ? P : 16)) abort(); if (i < g->k) bd[i] = b; else bp[i - g->k] = b; }
+                if (mon_case_all("%s|direct-decoder|setup", x.ck)) { xc = init(g->k, g->m, g->hd); if (!xc) mon_viol("C05", "table-missing", "init_xor_hd_code refused a supported shape"); mon_end(); }
+                for (int e = 0; e < ne && xc; e++) for (int dp = 0; dp < 2; dp++) {
+                    if ((e + dp) % (MO.thorough ? 1 : 2) && __builtin_popcount(es[e]) > 1) continue;
+                    char em[128]; mask_str(es[e], n, em, sizeof em);
+                    if (!mon_case("%s|direct-decoder|payload=%llu|E=%s|decode_parity=%d", x.ck, (unsigned long long)P, em, dp)) continue;
+                    int miss[40], nm = 0;
+                    for (int i = 0; i < n; i++) { char *b = i < g->k ? bd[i] : bp[i - g->k]; if (es[e] >> i & 1) { memset(b, i < g->k ? 0xE1 + i : 0, P); miss[nm++] = i; }   /* parity is accumulated into, as in encode: the caller hands in zeroed parity buffers; lost data buffers hold anything */ else memcpy(b, s->frag[i] + 80, P); }
+                    miss[nm] = -1;
+                    int rc = xc->decode(xc, bd, bp, miss, (int)P, dp);
+                    mon_count("evaluations", 1); mon_count("direct_decoder_calls", 1);
+                    if (rc != 0) mon_viol("C05", "direct-decode-failed", "xor_code decode(decode_parity=%d) returned %d for %d erasures (hd=%d)", dp, rc, nm, g->hd);
+                    else for (int i = 0; i < (dp ? n : g->k); i++) if (memcmp(i < g->k ? bd[i] : bp[i - g->k], s->frag[i] + 80, P)) { mon_viol("C05", "direct-decode-wrong-bytes", "xor_code decode(decode_parity=%d): fragment %d differs from the original after decoding E=%s", dp, i, em); break; }
+                    /* survivors are inputs: unchanged */
+                    for (int i = 0; i < n; i++) if (!(es[e] >> i & 1) && memcmp(i < g->k ? bd[i] : bp[i - g->k], s->frag[i] + 80, P)) { mon_viol("C05", "direct-decode-modified-input", "xor_code decode changed surviving fragment %d", i); break; }
+                    mon_distinct("nontrivial", mon_hash_u64(es[e] * 2u + (uint32_t)dp, mon_hash_str(x.ck, 31)));
+                    mon_end();
+                }
+                for (int i = 0; i < n; i++) free(i < g->k ? bd[i] : bp[i - g->k]);
+                if (xc) free(xc);
+            }
             for (int e = 0; e < ne; e++) {
                 uint32_t present = full & ~es[e];
                 char em[128]; mask_str(es[e], n, em, sizeof em);
@@ -760,6 +792,8 @@ static void run_needed(int which)
         add_cfgs(cfgs, &nc, 1200, EC_BACKEND_LIBERASURECODE_RS_VAND, MO.thorough);
         nc += cfgs_xor(cfgs + nc, 1200 - nc);
         nc += cfgs_shss(cfgs + nc, 1200 - nc);
+        nc += cfgs_jer(cfgs + nc, 1200 - nc);
+        nc += cfgs_phazr(cfgs + nc, 1200 - nc);
     }
     if (which & 2) {
         add_cfgs(cfgs, &nc, 1200, EC_BACKEND_ISA_L_RS_VAND, MO.thorough && which == 2);
@@ -873,6 +907,8 @@ static void run_force(int which)
         add_cfgs(cfgs, &nc, 1200, EC_BACKEND_LIBERASURECODE_RS_VAND, 0);
         nc += cfgs_xor(cfgs + nc, 1200 - nc);
         nc += cfgs_shss(cfgs + nc, 1200 - nc);
+        nc += cfgs_jer(cfgs + nc, 1200 - nc);
+        nc += cfgs_phazr(cfgs + nc, 1200 - nc);
     }
     if (which & 2) {
         add_cfgs(cfgs, &nc, 1200, EC_BACKEND_ISA_L_RS_VAND, 0);
@@ -913,6 +949,11 @@ static void run_force(int which)
                 int kinds_b[4];
                 for (int i = 0; i < nb; i++) kinds_b[i] = (int)rng_below(&r, DMG_KINDS);
                 int si = e % x.nstr; stripe_t *s = &x.st[si];
+                /* stripes whose fragments 0 / 1 carry the stored checksum values 0 / ffffffff: payload damage to exactly those */
+                if (x.kind[si] == DATA_CRC0 && nb >= 1 && e % 2 == 1) {
+                    int t = (e / 2) % 2 < k ? (e / 2) % 2 : 0;
+                    if (S >> t & 1) { for (int i = 0; i < ns; i++) if (sl[i] == t) { sl[i] = sl[0]; sl[0] = t; break; } kinds_b[0] = DMG_PAYLOAD_BIT; Bm = mask_of(sl, nb); mon_count("cases_damaging_a_fragment_whose_stored_checksum_is_0_or_ffffffff", 1); }
+                }
                 int p = e % NPRES;
                 char sm[128], bm[128]; mask_str(full & ~S, n, sm, sizeof sm); mask_str(Bm, n, bm, sizeof bm);
                 char kd[96] = ""; for (int i = 0; i < nb; i++) { strcat(kd, i ? "+" : ""); strcat(kd, dmg_name[kinds_b[i]]); }
@@ -1178,6 +1219,48 @@ static void run_isal_faults(void)
             mon_end();
         }
         ctx_close(&x);
+    }
+    /* the adapters' own refusals (word size their init rejects) between uses of live instances, after churn of other
+     * instances: a refused create leaves every live instance answering as before (encode == model, decode exact) */
+    for (int round = 0; round < (MO.thorough ? 12 : 4); round++) {
+        if (!mon_case("isa_l|refused-creates-between-uses|round=%d", round)) continue;
+        rng_t r; rng_case(&r);
+        static const int shp[][2] = { {4, 2}, {5, 3}, {3, 3}, {10, 4}, {2, 1} };
+        int d[4] = { -1, -1, -1, -1 }; cfg_t cc[4];
+        for (int i = 0; i < 3; i++) { int q = (int)rng_below(&r, 5); cc[i] = (cfg_t){ (i + round) & 1 ? EC_BACKEND_ISA_L_RS_CAUCHY : EC_BACKEND_ISA_L_RS_VAND, shp[q][0], shp[q][1], shp[q][1], 0, CHKSUM_CRC32 }; d[i] = lec_create(&cc[i]); }
+        /* churn: two of them go away, one of the same shape as the first comes back */
+        for (int i = 0; i < 2; i++) if (d[i] > 0) { liberasurecode_instance_destroy(d[i]); d[i] = -1; }
+        cc[3] = cc[0]; d[3] = lec_create(&cc[3]);
+        static const int badw[] = { 7, 4, 33, 64, -8, 1 };
+        for (int b = 0; b < 6; b++) {
+            cfg_t bc = { b & 1 ? EC_BACKEND_ISA_L_RS_CAUCHY : EC_BACKEND_ISA_L_RS_VAND, shp[b % 5][0], shp[b % 5][1], shp[b % 5][1], badw[b], CHKSUM_CRC32 };
+            int bd = lec_create(&bc);
+            mon_count("evaluations", 1); mon_count("refused_creates_between_uses", 1);
+            if (bd > 0) { if (badw[b] != -8) mon_viol("C19", "bad-word-size-accepted", "create with w=%d returned %d", badw[b], bd); liberasurecode_instance_destroy(bd); }
+            for (int i = 2; i < 4; i++) if (d[i] > 0) {
+                cfg_use(&cc[i]);
+                uint64_t len = (uint64_t)cc[i].k * 23 + (uint64_t)b; uint8_t *data = malloc(len); rng_fill(&r, data, len);
+                stripe_t st; int rc = stripe_make(&st, d[i], &cc[i], data, len);
+                if (rc != 0) mon_viol("C19", "encode-failed", "encode on a live instance after a refused create (w=%d) returned %d", badw[b], rc);
+                else {
+                    uint8_t *exp[64]; uint64_t ef = model_fragment_len(&cc[i], len); int n = cfg_n(&cc[i]);
+                    for (int f = 0; f < n; f++) exp[f] = malloc(ef);
+                    model_stripe(&cc[i], data, len, 0, exp);
+                    if (ef != st.flen) mon_viol("C19", "encode-fragment-length", "after a refused create: fragment_len %llu, model %llu", (unsigned long long)st.flen, (unsigned long long)ef);
+                    else for (int f = 0; f < n; f++) if (memcmp(exp[f], st.frag[f], ef)) { mon_viol("C19", "encode-differs-from-model", "after a refused create (w=%d) fragment %d of a live %s instance differs from the model", badw[b], f, be_name(cc[i].be)); break; }
+                    char *lst[32]; int cnt = 0; for (int f = cc[i].m < n ? 1 : 0; f < n; f++) lst[cnt++] = (char *)st.frag[f];
+                    char *out = NULL; uint64_t ol = 0; int drc = liberasurecode_decode(d[i], lst, cnt, st.flen, 0, &out, &ol);
+                    if (drc != 0 || ol != len || memcmp(out, data, len)) mon_viol("C19", "decode-wrong-bytes", "after a refused create (w=%d): decode rc=%d", badw[b], drc);
+                    if (drc == 0) liberasurecode_decode_cleanup(d[i], out);
+                    for (int f = 0; f < n; f++) free(exp[f]);
+                    stripe_free(&st);
+                }
+                free(data);
+            }
+        }
+        for (int i = 0; i < 4; i++) if (d[i] > 0 && liberasurecode_instance_destroy(d[i]) != 0) mon_viol("C19", "destroy-failed", "destroy after refused creates failed");
+        mon_distinct("nontrivial", mon_hash_u64((uint64_t)round, 777));
+        mon_end();
     }
 }
 
